@@ -162,6 +162,31 @@ def check_channel(case):
         f = _direction(tag, snd, rcv, order, data)
         if f is not None:
             return f
+    # a THIRD party C opens a channel to B through the very Server object A used (objects describing a peer are re-used across
+    # channels): C -> B works like A -> B did
+    if ids['mode'] == 'chan':
+        c = hashlib.sha256(b'third/' + a + b).digest()
+        if c not in (a, b):
+            pub_c = refkeys.ed_keypair(c)[0]
+
+            def build2():
+                ca, sb = Client(a), Server('10.0.0.2', 2, pub_b)
+                cha1 = AdnlChannel(ca, sb, ca.get_key_id(), sb.get_key_id())
+                cha1.encrypt(b'warm-up')
+                cc = Client(c)
+                chc = AdnlChannel(cc, sb, cc.get_key_id(), sb.get_key_id())          # same Server object, another client
+                cb, sc = Client(b), Server('10.0.0.3', 3, pub_c)
+                chb = AdnlChannel(cb, sc, cb.get_key_id(), sc.get_key_id())
+                return chc, chb, _order(cc.get_key_id(), sb.get_key_id()), _order(cb.get_key_id(), sc.get_key_id())
+            ok, res = call(build2)
+            if not ok:
+                return Fail(f'channel/construction-raises/shared-server-object/{exc_sig(res)}', repr(res))
+            chc, chb, ord_c, ord_b2 = res
+            for tag, snd, rcv, order, data in (('C->B over the Server object A used', chc, chb, ord_c, p or b'x'),
+                                               ('B->C', chb, chc, ord_b2, q or b'y')):
+                f = _direction(tag, snd, rcv, order, data)
+                if f is not None:
+                    return Fail(f.signature + '/server-object-shared-by-two-clients', f.detail)
     return None
 
 
@@ -464,6 +489,18 @@ def check_derive(case):
                     f'{res[0][0].hex()} != {exp[0].hex()}; mnemonic: {shown}')
     if res[0][1] != exp[1]:
         return Fail('mnemonic_to_wallet_key/secret-key-differs-from-documented-derivation', f'mnemonic: {shown}')
+    # the caller's word LIST derived once, then one word replaced in place (the same list object), derived again: the key belongs to
+    # the words the list holds now
+    lst = list(words)
+    ok, _k = call(keys.mnemonic_to_wallet_key, lst)
+    pos = len(lst[3]) % 24
+    lst[pos] = 'abandon' if lst[pos] != 'abandon' else 'zoo'
+    ok, k2 = call(keys.mnemonic_to_wallet_key, lst)
+    if ok:
+        exp2 = refkeys.wallet_key(list(lst))
+        if (bytes(k2[0]), bytes(k2[1])) != (exp2[0], exp2[1]):
+            return Fail('mnemonic_to_wallet_key/stale-after-the-word-list-changed-in-place', f'word {pos} of the list replaced after a first derivation; '
+                        f'got public key {bytes(k2[0]).hex()}, documented derivation of the new words gives {exp2[0].hex()}')
     return None
 
 
